@@ -19,7 +19,7 @@ RULE = (
 )
 ASSUMPTIONS = ["levels are distinct (a subset has no repeats)", "shooting growth bounded by exp(13.8) by construction"]
 TOLERANCES = {"slice equality": "1e-13 * max|field| (double), 1e-6 * max|field| (single)", "heights": "exact"}
-BUDGET = {"quick": dict(examples=350, shards=1), "thorough": dict(examples=2000, shards=16)}
+BUDGET = {"quick": dict(examples=800, shards=1), "thorough": dict(examples=8000, shards=16)}
 
 
 def warmup():
